@@ -197,7 +197,10 @@ def gen_hier_script(rng):
             ks = [key() for _ in range(rng.choice([0, 1, 1, 2, 3, 5]))]
             allkeys.extend(ks)
             kl = ','.join(ks) if ks else '-'
-            if c is None:
+            if rng.random() < 0.12:
+                # a child that has no filter at all (get_filter() = None): it may hold any key
+                L.append('hier pushnone')
+            elif c is None:
                 L.append('hier push none - - %s' % kl)
             else:
                 L.append('hier push %s %d %d %s' % (cfg_hex(c), c[1], bits_from_formula(c[0], c[1], c[2], c[4]), kl))
@@ -276,6 +279,15 @@ def oracle(lines, out, spec=None):
     return fails
 
 
+class _Everything(set):
+    """the key set of a filterless child: it may hold any key"""
+    def __contains__(self, x):
+        return True
+
+
+EVERYTHING = _Everything()
+
+
 def hier_oracle(hst, i, t, o, fails):
     """children: list of key sets (None = vacated). A present child whose filter was built from a key must be
     yielded by both iterators for that key; fast/async checks must answer Maybe; vacated children are never yielded."""
@@ -288,6 +300,10 @@ def hier_oracle(hst, i, t, o, fails):
         if o != 'hier push %d' % len(ch):
             fails.append('line %d: push returned %s, expected id %d' % (i, o, len(ch)))
         ch.append(ks)
+    elif op == 'pushnone':
+        if o != 'hier push %d' % len(ch):
+            fails.append('line %d: push returned %s, expected id %d' % (i, o, len(ch)))
+        ch.append(EVERYTHING)
     elif op == 'pop':
         idx = [j for j, c in enumerate(ch) if c is not None]
         if idx:
